@@ -27,6 +27,10 @@ import (
 func (g *Engine) Start() error {
 	g.connsUnix = make([]*Conn, MaxOpenFiles)
 
+	// the poller goroutines take a snapshot of isOneshot when they start:
+	// it must be set before any of them is started.
+	g.isOneshot = (g.EpollMod == EPOLLET && g.EPOLLONESHOT == EPOLLONESHOT)
+
 	// Create pollers and listeners.
 	g.pollers = make([]*poller, g.NPoller)
 	g.listeners = make([]*poller, len(g.Addrs))[0:0]
@@ -116,7 +120,6 @@ func (g *Engine) Start() error {
 	}
 
 	g.Timer.Start()
-	g.isOneshot = (g.EpollMod == EPOLLET && g.EPOLLONESHOT == EPOLLONESHOT)
 
 	if g.AsyncReadInPoller {
 		if g.IOExecute == nil {
